@@ -55,16 +55,20 @@ def Env.origin (e : Env) : Bytes := e.req.note.originLine
 def Env.opened (e : Env) : Except OpenErr (List SigLine) :=
   match e.req.note with
   | .wellformed n => noteOpen ((ownKeys e.cfg).map VKey.verifier) n
+  | .truncated n =>
+    match openLoop ((ownKeys e.cfg).map VKey.verifier) n.text n.sigs 0 [] [] with
+    | .error err => .error err
+    | .ok _ => .error .malformed
   | .malformed _ => .error .malformed
 
 def Env.text (e : Env) : Bytes :=
   match e.req.note with
-  | .wellformed n => n.text
+  | .wellformed n | .truncated n => n.text
   | .malformed _ => []
 
 def Env.lines (e : Env) : List SigLine :=
   match e.req.note with
-  | .wellformed n => n.sigs
+  | .wellformed n | .truncated n => n.sigs
   | .malformed _ => []
 
 def Env.ckpt (e : Env) : Option Checkpoint := parseCheckpoint e.text
